@@ -37,7 +37,7 @@ Fixpoint consec (prev : N) (es : list entry) : Prop :=
 
 Definition env_ok (s : nstate) (ev : nevent) : Prop :=
   match ev with
-  | EAppendReq q =>
+  | EAppendReq q | EAppendReqCut q =>
       (* entries are numbered prev+1, prev+2, ... *)
       consec (aq_previdx q) (aq_entries q) /\
       (* the request does not contradict an index the receiver knows committed *)
